@@ -26,7 +26,10 @@ type KeyPair struct {
 type PKI struct {
 	GoodCA, ForeignCA KeyPair
 	// server certificates for host "server.test" / 10.0.0.1
-	SrvGood      KeyPair // GoodCA, matching names, valid at the epoch
+	SrvGood      KeyPair // GoodCA, matching names (DNS and IP), valid at the epoch
+	SrvGoodName  KeyPair // GoodCA, DNS name server.test only
+	SrvGoodIP    KeyPair // GoodCA, IP 10.0.0.1 only
+	SrvGoodDom   KeyPair // GoodCA, the DNS tunnel domain (the host of a dns:// upstream)
 	SrvWrongHost KeyPair // GoodCA, names other.test / 10.9.9.9
 	SrvUntrusted KeyPair // ForeignCA, matching names
 	SrvExpired   KeyPair // GoodCA, matching names, NotAfter before the epoch
@@ -115,6 +118,9 @@ func GetPKI() *PKI {
 		nb, na := Epoch.AddDate(-1, 0, 0), Epoch.AddDate(5, 0, 0)
 		names, ips := []string{"server.test"}, []string{"10.0.0.1"}
 		p.SrvGood = mkLeaf(p.GoodCA, "server.test", 10, names, ips, nb, na, false)
+		p.SrvGoodName = mkLeaf(p.GoodCA, "server.test", 15, names, nil, nb, na, false)
+		p.SrvGoodIP = mkLeaf(p.GoodCA, "10.0.0.1", 16, nil, ips, nb, na, false)
+		p.SrvGoodDom = mkLeaf(p.GoodCA, Domain, 17, []string{Domain}, nil, nb, na, false)
 		p.SrvWrongHost = mkLeaf(p.GoodCA, "other.test", 11, []string{"other.test"}, []string{"10.9.9.9"}, nb, na, false)
 		p.SrvUntrusted = mkLeaf(p.ForeignCA, "server.test", 12, names, ips, nb, na, false)
 		p.SrvExpired = mkLeaf(p.GoodCA, "server.test", 13, names, ips, nb, Epoch.AddDate(0, -1, 0), false)
